@@ -378,11 +378,26 @@ def run(ctx: Ctx):
         okt = bool(odec) and dict(odec[0][3]).get("t") == tsym
         ctx.check(okt and extra.get("t") == tsym and extra.get("time") == tsym, "R01.g", mo.key("aliases"), "symbols['t'] = symbols['time'] = Symbol('t')", f"make_ode binds the time aliases as {{{', '.join(k + ': ' + _avg.show(x) for k, x in extra.items())}}} (the model's t is {_avg.show(dict(odec[0][3]).get('t')) if odec and dict(odec[0][3]).get('t') else None})", mo.where())
     mv = sm.func("ode.py", "ODE.missing_variables")
-    ctx.check(any(norm(n.value).replace('"', "'") == "set(self.symbols.keys()) | {'t'}" for n in ast.walk(mv.node) if isinstance(n, ast.Assign)), "R01.g", mv.key("t-is-known"), "`t` is never a missing variable", "ODE.missing_variables does not treat `t` as a known symbol", mv.where())
+    mvv = util.value_of(ctx, mv)
+    if _avg.has_unk(mvv):
+        ctx.undecided("R01.g", mv.key("t-is-known"), "ODE.missing_variables is not understood", mv.where())
+    else:
+        tests = [c for c in _avg.find_all(mvv, "cmp") if c[1] in ("!=", "not in", "==", "in") and (c[3] == _avg.C("t") or c[2] == _avg.C("t"))]
+        ctx.check(bool(tests), "R01.g", mv.key("t-is-known"), "`t` is never a missing variable", "ODE.missing_variables does not treat `t` as a known symbol", mv.where())
     pa = sm.func("codegen/python.py", "PythonCodeGenerator._rhs_arguments")
-    d = [n for n in ast.walk(pa.node) if isinstance(n, ast.Dict)][0]
-    ent = {const_str(k): const_str(v) for k, v in zip(d.keys, d.values)}
-    ctx.check(ent.get("t") == "t", "R01.g", pa.key("formal-t"), "formal time argument is `t`", f"the formal time argument is {ent.get('t')!r}", pa.where())
+    from .c04 import func_tuple as _ftg
+
+    kwg, vg = _ftg(ctx, pa)
+    entg = {}
+    if kwg and kwg.get("arguments") is not None:
+        for cp_ in _avg.find_all(kwg["arguments"], "comp"):
+            for it_ in cp_[3]:
+                if it_[0] == "sub" and it_[1][0] == "dict":
+                    entg = {k_[1]: x_ for k_, x_ in it_[1][1] if k_[0] == "c"}
+    if not entg:
+        ctx.undecided("R01.g", pa.key("formal-t"), "the formal argument table is not understood", pa.where())
+    else:
+        ctx.check(entg.get("t") == _avg.C("t"), "R01.g", pa.key("formal-t"), "formal time argument is `t`", f"the formal time argument is {_avg.show(entg.get('t')) if entg.get('t') else None}", pa.where())
 
     # ---- R01.h printer coverage -----------------------------------------------------------------------------
     ctx.rule("R01.h", "NumPy printer coverage: every producible class resolves to a vetted correct method or to a gotranx method with the right numpy function and operand structure", floor=40)
